@@ -236,30 +236,40 @@ func mergeFormats(lower px.FormatMap, higher px.FormatMap) px.FormatMap {
 		}
 	})
 
-	sort.Slice(merged, func(ax, bx int) bool {
-		a := merged[ax].Key().(px.Type)
-		b := merged[bx].Key().(px.Type)
-		if a.Equals(b, nil) {
-			return false
+	// An entry must come before every entry whose key accepts its key (the first entry that accepts a value gives its
+	// format). Comparing two keys by assignability, then rank, then name is not transitive (Integer before Scalar by
+	// assignability, Scalar before Array and Array before Integer by rank), so the entries are ordered by the number of
+	// keys that accept their key first: a key accepted by another key is accepted by everything that accepts that one.
+	type ranked struct {
+		entry     *HashEntry
+		acceptors int
+	}
+	order := make([]ranked, len(merged))
+	for i, e := range merged {
+		n := 0
+		for _, o := range merged {
+			if px.IsAssignable(o.Key().(px.Type), e.Key().(px.Type)) {
+				n++
+			}
 		}
-		ab := px.IsAssignable(b, a)
-		ba := px.IsAssignable(a, b)
-		if ab && !ba {
-			return true
+		order[i] = ranked{e, n}
+	}
+	sort.SliceStable(order, func(ax, bx int) bool {
+		if order[ax].acceptors != order[bx].acceptors {
+			return order[ax].acceptors > order[bx].acceptors
 		}
-		if !ab && ba {
-			return false
-		}
+		a := order[ax].entry.Key().(px.Type)
+		b := order[bx].entry.Key().(px.Type)
 		ra := typeRank(a)
 		rb := typeRank(b)
-		if ra < rb {
-			return true
-		}
-		if ra > rb {
-			return false
+		if ra != rb {
+			return ra < rb
 		}
 		return strings.Compare(a.String(), b.String()) < 0
 	})
+	for i, r := range order {
+		merged[i] = r.entry
+	}
 	return px.FormatMap(WrapHash(merged))
 }
 
